@@ -104,7 +104,7 @@ def expand_doc(tpl):
             docs = []
             for combo in itertools.product(*[range(n) for n in counts]):
                 env = {'N:' + n: i for n, i in zip(names, combo)}
-                docs.append(expand(body, env, 0))
+                docs.append(expand(body, env, 1))
             return docs
         n = count_of(c)
         return [expand(body, {'0': i}, 1) for i in range(n)]
@@ -112,16 +112,21 @@ def expand_doc(tpl):
         c = next(x['$repeat'] for x in tpl if isinstance(x, dict) and len(x) == 1 and '$repeat' in x)
         body = [x for x in tpl if not (isinstance(x, dict) and len(x) == 1 and '$repeat' in x)]
         if isinstance(c, dict):
-            raise BadCount('named counts in list form not generated')
+            names = sorted(c.keys())
+            counts = [count_of(c[n]) for n in names]
+            return [expand(body, {'N:' + n: i for n, i in zip(names, combo)}, 1) for combo in itertools.product(*[range(n) for n in counts])]
         n = count_of(c)
         return [expand(body, {'0': i}, 1) for i in range(n)]
     return [expand(tpl, {}, 0)]
 
 
-def body(rng, depth, nested_ok, named=None):
-    """Random body using the index token of level `depth` (or named tokens)."""
+def body(rng, depth, nested_ok, named=None, outer=None):
+    """Random body using the index token of level `depth` (or named tokens); `outer` = named tokens of an enclosing
+    document-level repeat, which stay visible inside nested repeats (a plain outer index is shadowed)."""
     toks = ['<<%d>>' % depth] if named is None else ['<<N:%s>>' % n for n in named]
     out = {}
+    if outer and rng.random() < 0.7:
+        out['o'] = rng.choice(['', 'of-']) + rng.choice(outer) + rng.choice(['', '/']) + (toks[0] if named is None and rng.random() < 0.5 else '')
     for k in rng.sample(['p', 'q', 'r', 's', 't'], rng.randint(1, 4)):
         r = rng.random()
         if r < 0.2:
@@ -135,11 +140,11 @@ def body(rng, depth, nested_ok, named=None):
         elif r < 0.72:
             out[k] = [rng.choice(toks) + 'e', gen.scalar(rng), {'in': 'v' + rng.choice(toks)}]
         elif r < 0.86 and nested_ok:
-            inner = body(rng, depth + 1, False)
+            inner = body(rng, depth + 1, False, outer=toks if named is not None else None)
             inner['$repeat'] = rng.randint(0, 3)
             out[k] = [rng.choice(['head', 1]), inner, 'tail' + (rng.choice(toks) if rng.random() < 0.5 else '')]
         elif nested_ok:
-            inner = body(rng, depth + 1, False)
+            inner = body(rng, depth + 1, False, outer=toks if named is not None else None)
             inner['$repeat'] = rng.randint(0, 3)
             out[k] = {'k<<%d>>' % (depth + 1): inner, 'after': rng.choice(toks) + '!'}
         else:
@@ -165,6 +170,10 @@ def gen_case(rng, i, tier):
             case['layers'].append({'$repeat': rng.choice([x for x in range(0, 6) if x != n]), 'top': 1})
     elif kind == 'doclist':
         t = [{'$repeat': n}, 'e<<0>>', {'v': '<<VAL0>>', 'w': gen.scalar(rng)}]
+        if rng.random() < 0.35:
+            # list-form document with named counts
+            t = [{'$repeat': {'a': rng.randint(0, 3), 'b': rng.randint(1, 2)}}, 'e<<N:a>>-<<N:b>>', {'v': 'x<<N:b>>', 'w': gen.scalar(rng)}]
+            case['kind'] = 'doclist-named'
         rng.shuffle(t)
         case['layers'] = [t]
     elif kind == 'list':
@@ -177,10 +186,13 @@ def gen_case(rng, i, tier):
     elif kind == 'map':
         inner = body(rng, 0, rng.random() < 0.3)
         inner['$repeat'] = n
+        if rng.random() < 0.1:
+            inner['$repeat'] = rng.choice([1.5, '2', True, [2], '3'])
+            case['kind'] = 'badcount'
         case['layers'] = [{'m': {rng.choice(['k<<0>>', '<<0>>', 'a<<0>>b']): inner, 'fixed': 1}}]
     else:
         names = rng.sample(['a', 'b', 'c', 'Zone', 'App', 'Z', 'aa', 'B'], rng.randint(1, 3))
-        t = body(rng, 0, False, named=names)
+        t = body(rng, 0, rng.random() < 0.4, named=names)
         t['$repeat'] = {nm: rng.randint(0, 3) for nm in names}
         case['layers'] = [t]
         if rng.random() < 0.3:
@@ -205,6 +217,11 @@ def fixed_cases(tier):
     out.append({'kind': 'named', 'layers': [{'$repeat': {'Zone': 2, 'app': 3}, 'v': '<<N:Zone>>/<<N:app>>'}]})
     out.append({'kind': 'named', 'layers': [{'$repeat': {'b': 2, 'B': 2, 'a': 2}, 'v': '<<N:b>><<N:B>><<N:a>>'}]})
     out.append({'kind': 'doc', 'layers': [{'$repeat': 3, 'idx': '<<VAL0>>', 'name': 'host-<<REF:idx>>'}]})
+    out.append({'kind': 'named', 'layers': [{'$repeat': {'zone': 2}, 'hosts': [{'$repeat': 2, 'n': 'z<<N:zone>>-h<<1>>'}], 'm': {'k<<1>>': {'$repeat': 2, 'v': '<<N:zone>>/<<VAL1>>'}}}]})
+    out.append({'kind': 'doclist-named', 'layers': [[{'$repeat': {'a': 2, 'b': 2}}, 'e<<N:a>>-<<N:b>>']]})
+    for bad in (1.5, '3', True, [2]):
+        out.append({'kind': 'badcount', 'layers': [{'m': {'k<<0>>': {'$repeat': bad, 'v': 1}}}]})
+        out.append({'kind': 'badcount', 'layers': [{'l': [{'$repeat': bad, 'v': 1}]}]})
     out.append({'kind': 'doc', 'layers': [{'$repeat': 2, 'v': 'first\nidx=<<0>>\nlast', 'w': '<<0>>\n'}]})
     out.append({'kind': 'list', 'layers': [{'l': [{'$repeat': 2, 'v': 'a\n<<0>>'}]}]})
     return out
@@ -273,7 +290,7 @@ def check_case(ctx, case):
         return res.inconclusive('hand-unrolled document failed: %s' % ou['err'])
     got = [json.loads(l) for l in out_bytes(od).decode().splitlines() if l.strip()]
     want = [json.loads(l) for l in out_bytes(ou).decode().splitlines() if l.strip()]
-    if case['kind'] in ('doc', 'doclist', 'named', 'nested', 'layered', 'named-layered') and len(got) != len(unrolled):
+    if case['kind'] in ('doc', 'doclist', 'doclist-named', 'named', 'nested', 'layered', 'named-layered') and len(got) != len(unrolled):
         return res.violate('count', 'expected exactly %d copies, got %d' % (len(unrolled), len(got)), case=case, got=got)
     if out_bytes(od) != out_bytes(ou):
         return res.violate('unroll', '$repeat expansion differs from the hand-unrolled document', case=case, direct=render_direct(tpl), expect=want, got=got)
